@@ -56,7 +56,9 @@ Record linv (snt : list smsg) (i : N) (s : state) : Prop := {
   l_prepc_none : s_acc s = None -> cget (s_prep s) (s_round s) = [];
   l_acc : forall p, s_acc s = Some p -> hash (c_full (co p)) = c_root (co p) /\ c_full (co p) <> None;
   l_commitc : s_decided s = false -> forall p, s_acc s = Some p ->
-             forall m, In m (cget (s_commit s) (s_round s)) -> genuine snt T_COMMIT (s_round s) (c_root (co p)) m
+             forall m, In m (cget (s_commit s) (s_round s)) -> genuine snt T_COMMIT (s_round s) (c_root (co p)) m;
+  l_commitc_future : s_decided s = false -> forall r, s_round s < r -> cget (s_commit s) r = [];
+  l_commitc_none : s_decided s = false -> s_acc s = None -> cget (s_commit s) (s_round s) = []
 }.
 
 (* ---- admissibility gives genuineness ------------------------------------------------------------------ *)
@@ -219,7 +221,7 @@ Definition same_view (s s' : state) : Prop :=
   s_height s' = s_height s /\ s_round s' = s_round s /\ s_lpr s' = s_lpr s /\ s_lpv s' = s_lpv s /\
   s_acc s' = s_acc s /\ s_decided s' = s_decided s /\
   (forall r, s_round s <= r -> cget (s_prep s') r = cget (s_prep s) r) /\
-  cget (s_commit s') (s_round s) = cget (s_commit s) (s_round s).
+  (forall r, s_round s <= r -> cget (s_commit s') r = cget (s_commit s) r).
 
 Lemma linv_view snt i s s' : same_view s s' -> linv snt i s -> linv snt i s'.
 Proof.
@@ -228,16 +230,21 @@ Proof.
   - intros p E m Hm. rewrite Hp in Hm by lia. eauto.
   - intros r Hlt. rewrite Hp by lia. auto.
   - intros E. rewrite Hp by lia. auto.
-  - intros E p Ea m Hm. rewrite Hc in Hm. eauto.
+  - intros E p Ea m Hm. rewrite Hc in Hm by lia. eauto.
+  - intros E r Hlt. rewrite Hc by lia. auto.
+  - intros E Ea. rewrite Hc by lia. auto.
 Qed.
 
+Definition pcr (i : N) (y : smsg) : Prop :=
+  by_ i T_PREPARE y \/ by_ i T_COMMIT y \/ by_ i T_ROUNDCHANGE y.
+
 Lemma linv_mono snt snt' i s : incl snt snt' ->
-  (forall y ty, In y snt' -> by_ i ty y -> In y snt) -> linv snt i s -> linv snt' i s.
+  (forall y, In y snt' -> pcr i y -> In y snt) -> linv snt i s -> linv snt' i s.
 Proof.
   intros Hi Hnew L. destruct L. constructor; auto.
-  - intros y Hy By. apply l_prep0; eauto.
-  - intros y Hy By. apply l_rc0; eauto.
-  - intros y Hy By. apply l_commit0; eauto.
+  - intros y Hy By. apply l_prep0; [apply Hnew; unfold pcr; auto|exact By].
+  - intros y Hy By. apply l_rc0; [apply Hnew; unfold pcr; auto|exact By].
+  - intros y Hy By. apply l_commit0; [apply Hnew; unfold pcr; auto|exact By].
   - intros p E m Hm. eapply genuine_mono; eauto.
   - intros E p Ea m Hm. eapply genuine_mono; eauto.
 Qed.
@@ -273,6 +280,471 @@ Proof.
   - intros y0 [<-|[]] B. destruct (H i _ B) as (_ & A & _). contradiction.
   - intros y0 [<-|[]] B. destruct (H i _ B) as (_ & _ & A & _). contradiction.
   - intros y0 [<-|[]] B. destruct (H i _ B) as (_ & _ & _ & A). contradiction.
+Qed.
+
+
+(* ---- rule: a proposal is accepted ------------------------------------------------------------------------- *)
+
+Lemma valid_proposal_justified c s m : valid_proposal c s m = Some true ->
+  proposal_justified c (value_check c) (s_height s) (rcj m) (pj m) (s_height s) (c_round (co m)) (c_full (co m)) = true.
+Proof.
+  unfold valid_proposal.
+  repeat match goal with
+  | |- context [if ?b then Some false else _] => destruct b; [discriminate|]
+  end.
+  destruct (proposer c (s_height s) (c_round (co m))); [|discriminate].
+  repeat match goal with
+  | |- context [if negb ?b then Some false else _] => destruct b eqn:?; cbn [negb]; [|discriminate]
+  end.
+  intros _. reflexivity.
+Qed.
+
+Lemma by_create_prepare i s r root ty j :
+  by_ j ty (create_prepare (cfg_of i) s r root) -> j = i /\ ty = T_PREPARE.
+Proof. unfold by_; cbn. intros [E1 E2]. injection E1 as <-. auto. Qed.
+
+Lemma upon_proposal_linv i snt s m s' o ok :
+  linv snt i s -> admissible c0 byz snt m -> valid_proposal (cfg_of i) s m = Some true ->
+  upon_proposal (cfg_of i) s m = (s', o, ok) ->
+  linv (snt ++ bcast_of o) i s' /\ new_ok snt i (bcast_of o).
+Proof.
+  intros L Hadm Hv. unfold upon_proposal.
+  destruct (cadd_first (s_prop s) m) as [ct added]. destruct added; cbn [negb].
+  2:{ intros E; injection E as <- <- _. cbn. rewrite app_nil_r. split; [exact L|apply new_ok_nil]. }
+  pose proof (valid_proposal_ok _ _ _ Hv) as (Pt & Ph & Pl & Ps & Phash & Pval).
+  pose proof (valid_proposal_round _ _ _ Hv) as Hrd.
+  pose proof (valid_proposal_justified _ _ _ Hv) as Hj.
+  set (r := c_round (co m)) in *.
+  set (s2 := set_round (set_acc (set_prop s ct) (Some m)) r).
+  destruct L as [Lh L1 Ll Lp Lr Lc Lpc Lpf Lpn La Lcc Lcf Lcn].
+  assert (HR : s_round s <= r) by (destruct Hrd as [[_ E]|E]; lia).
+  assert (Hfull : c_full (co m) <> None).
+  { intros E. rewrite E in Pval. cbn in Pval. discriminate. }
+  (* no earlier prepare / commit of this operator is for round r *)
+  assert (Hfresh : forall p, s_acc s = Some p -> s_round s < r).
+  { intros p E. destruct Hrd as [[E' _]|Hlt]; [congruence|exact Hlt]. }
+  set (prep := create_prepare (cfg_of i) s2 r (hash (c_full (co m)))).
+  assert (Hold_prep : forall y, In y snt -> by_ i T_PREPARE y -> c_round (co y) <> r).
+  { intros y Hy By E. destruct (Lp y Hy By) as (_ & Hle & Hacc).
+    assert (c_round (co y) = s_round s) by lia. destruct (Hacc H) as (p & Ep & _). specialize (Hfresh p Ep). lia. }
+  assert (Hold_commit : forall y, In y snt -> by_ i T_COMMIT y -> c_round (co y) <> r).
+  { intros y Hy By E. destruct (Lc y Hy By) as (_ & Hle & Hacc & _).
+    assert (c_round (co y) = s_round s) by lia. destruct (Hacc H) as (p & Ep & _). specialize (Hfresh p Ep). lia. }
+  assert (Hempty_prep : cget (s_prep s) r = []).
+  { destruct (N.eq_dec r (s_round s)) as [E|E]; [|apply Lpf; lia].
+    rewrite E. apply Lpn. destruct (s_acc s) eqn:Ea; [|reflexivity]. specialize (Hfresh _ eq_refl). lia. }
+  assert (Hempty_commit : s_decided s = false -> cget (s_commit s) r = []).
+  { intros Hd. destruct (N.eq_dec r (s_round s)) as [E|E]; [|apply Lcf; [exact Hd|lia]].
+    rewrite E. apply Lcn; [exact Hd|]. destruct (s_acc s) eqn:Ea; [|reflexivity]. specialize (Hfresh _ eq_refl). lia. }
+  (* the invariant of the new state w.r.t. the old messages *)
+  assert (L2 : linv snt i s2).
+  { constructor; cbn.
+    - exact Lh.
+    - lia.
+    - lia.
+    - intros y Hy By. destruct (Lp y Hy By) as (A & B & C). split; [exact A|]. split; [lia|].
+      intros E. exfalso. apply (Hold_prep y Hy By E).
+    - intros y Hy By. specialize (Lr y Hy By). lia.
+    - intros y Hy By. destruct (Lc y Hy By) as (A & B & C & D & E). split; [exact A|]. split; [lia|].
+      split; [intros E'; exfalso; apply (Hold_commit y Hy By E')|]. split; [exact D|exact E].
+    - intros p E m0 Hm0. rewrite Hempty_prep in Hm0. destruct Hm0.
+    - intros r0 Hlt. apply Lpf. lia.
+    - intros E. discriminate.
+    - intros p E. injection E as <-. split; [exact Phash|exact Hfull].
+    - intros Hd p E m0 Hm0. rewrite (Hempty_commit Hd) in Hm0. destruct Hm0.
+    - intros Hd r0 Hlt. apply Lcf; [exact Hd|lia].
+    - intros Hd E. discriminate. }
+  destruct (can_process s2); intros E; injection E as <- <- _.
+  2:{ (* the prepare could not be broadcast: only the state changed *)
+    assert (Hb : bcast_of (if s_round s <? r then [OTimer (c_height (co m)) r] else []) = [])
+      by (destruct (s_round s <? r); reflexivity).
+    rewrite Hb, app_nil_r. split; [exact L2|apply new_ok_nil]. }
+  assert (Hb : bcast_of ((if s_round s <? r then [OTimer (c_height (co m)) r] else []) ++ [OBcast prep]) = [prep])
+    by (destruct (s_round s <? r); reflexivity).
+  fold s2 in Hb |- *. fold prep. rewrite Hb.
+  assert (Hprep : by_ i T_PREPARE prep /\ c_round (co prep) = r /\ c_root (co prep) = hash (c_full (co m))).
+  { unfold by_, prep; cbn. auto. }
+  destruct Hprep as (Bp & Rp & Rop).
+  split.
+  - (* the invariant with the new prepare *)
+    destruct L2 as [Mh M1 Ml Mp Mr Mc Mpc Mpf Mpn Ma Mcc Mcf Mcn].
+    constructor; auto.
+    + intros y Hy By. apply in_app_or in Hy. destruct Hy as [Hy|[<-|[]]]; [auto|].
+      rewrite Rp. split; [cbn in M1; exact M1|]. split; [cbn; lia|].
+      intros _. exists m. split; [reflexivity|]. rewrite Rop. symmetry. exact Phash.
+    + intros y Hy By. apply in_app_or in Hy. destruct Hy as [Hy|[<-|[]]]; [auto|].
+      destruct By as [_ T]. destruct Bp as [_ T']. exfalso; unfold T_PROPOSAL, T_PREPARE, T_COMMIT, T_ROUNDCHANGE in *; congruence.
+    + intros y Hy By. apply in_app_or in Hy. destruct Hy as [Hy|[<-|[]]]; [auto|].
+      destruct By as [_ T]. destruct Bp as [_ T']. exfalso; unfold T_PROPOSAL, T_PREPARE, T_COMMIT, T_ROUNDCHANGE in *; congruence.
+    + intros p E m0 Hm0. eapply genuine_mono; [|eauto]. intros a Ha. apply in_or_app. left. exact Ha.
+    + intros Hd p E m0 Hm0. eapply genuine_mono; [|eauto]. intros a Ha. apply in_or_app. left. exact Ha.
+  - constructor; cbn; try lia.
+    + intros y j ty [<-|[]] B. apply (by_create_prepare _ _ _ _ _ _ B).
+    + intros y [<-|[]] _. rewrite Rp, Rop. split; [lia|]. split; [exact Hold_prep|].
+      intros Hne. rewrite Lh in Hj. eapply justified_evidence; eauto.
+    + intros y [<-|[]] [_ T]. destruct Bp as [_ T']. exfalso; unfold T_PROPOSAL, T_PREPARE, T_COMMIT, T_ROUNDCHANGE in *; congruence.
+    + intros y [<-|[]] [_ T]. destruct Bp as [_ T']. exfalso; unfold T_PROPOSAL, T_PREPARE, T_COMMIT, T_ROUNDCHANGE in *; congruence.
+Qed.
+
+
+(* ---- rule: a prepare is counted ------------------------------------------------------------------------------ *)
+
+Lemma cadd_first_added ct m ct' : cadd_first ct m = (ct', true) -> ct' = cput ct (c_round (co m)) m.
+Proof. unfold cadd_first. destruct (existsb _ _); intros E; injection E as <-; [discriminate|reflexivity]. Qed.
+
+Lemma cadd_first_not_added ct m ct' : cadd_first ct m = (ct', false) -> ct' = ct.
+Proof. unfold cadd_first. destruct (existsb _ _); intros E; injection E as <-; [reflexivity|discriminate]. Qed.
+
+Ltac clash := exfalso; unfold T_PROPOSAL, T_PREPARE, T_COMMIT, T_ROUNDCHANGE in *; congruence.
+
+Lemma in_snoc {A} (l : list A) x y : In y (l ++ [x]) -> In y l \/ y = x.
+Proof. intros H. apply in_app_or in H. destruct H as [H|[H|[]]]; auto. Qed.
+
+Lemma incl_app_l {A} (l l' : list A) : incl l (l ++ l').
+Proof. intros a Ha. apply in_or_app. left. exact Ha. Qed.
+
+Lemma upon_prepare_linv i snt s m s' o p :
+  linv snt i s -> admissible c0 byz snt m -> s_acc s = Some p ->
+  valid_prepare (cfg_of i) m (s_height s) (s_round s) (c_root (co p)) = true ->
+  upon_prepare (cfg_of i) s m = (s', o) ->
+  linv (snt ++ bcast_of o) i s' /\ new_ok snt i (bcast_of o).
+Proof.
+  intros L Hadm Hp Hv. unfold upon_prepare.
+  destruct (cadd_first (s_prep s) m) as [ct added] eqn:Ea. destruct added; cbn [negb].
+  2:{ intros E; injection E as <- <-. cbn. rewrite app_nil_r. split; [exact L|apply new_ok_nil]. }
+  apply cadd_first_added in Ea.
+  destruct (valid_prepare_facts _ _ _ _ _ Hv) as (Tm & Rm & Rom & Lm & Sm).
+  rewrite Rm in Ea.
+  assert (Hgen : genuine snt T_PREPARE (s_round s) (c_root (co p)) m).
+  { eapply genuine_of_sig; eauto. apply Hadm; [left; reflexivity|exact Sm]. }
+  pose proof L as L0.
+  destruct L as [Lh L1 Ll Lp Lr Lc Lpc Lpf Lpn La Lcc Lcf Lcn].
+  set (s1 := set_prep s ct).
+  assert (Hentry : cget ct (s_round s) = cget (s_prep s) (s_round s) ++ [m]) by (rewrite Ea; apply cget_cput_same).
+  assert (Hother : forall r, r <> s_round s -> cget ct r = cget (s_prep s) r).
+  { intros r Hr. rewrite Ea. apply cget_cput_other. congruence. }
+  assert (L1' : linv snt i s1).
+  { constructor; cbn; auto.
+    - intros p0 E m0 Hm0. rewrite Hentry in Hm0. apply in_snoc in Hm0. rewrite Hp in E. injection E as <-.
+      destruct Hm0 as [Hm0| ->]; [eauto|exact Hgen].
+    - intros r Hlt. rewrite Hother by lia. auto.
+    - intros E. congruence. }
+  rewrite Hp.
+  destruct (has_quorum (cfg_of i) (cget (s_prep s) (s_round s))).
+  { intros E; injection E as <- <-. cbn. rewrite app_nil_r. split; [exact L1'|apply new_ok_nil]. }
+  destruct (has_quorum (cfg_of i) (cget ct (s_round s))) eqn:Hq2; cbn [negb].
+  2:{ intros E; injection E as <- <-. cbn. rewrite app_nil_r. split; [exact L1'|apply new_ok_nil]. }
+  intros E; injection E as <- <-.
+  set (s2 := set_prepared s1 (s_round s) (c_full (co p))).
+  set (cm := create_commit (cfg_of i) s2 (c_root (co p))).
+  change (bcast_of [OBcast cm]) with [cm].
+  destruct (La p Hp) as [Hhash Hfull].
+  assert (Bc : by_ i T_COMMIT cm /\ c_round (co cm) = s_round s /\ c_root (co cm) = c_root (co p))
+    by (unfold by_, cm; cbn; auto).
+  destruct Bc as (Bc & Rc & Roc).
+  split.
+  - destruct L1' as [Mh M1 Ml Mp Mr Mc Mpc Mpf Mpn Ma Mcc Mcf Mcn].
+    constructor; cbn.
+    + exact Lh.
+    + exact L1.
+    + lia.
+    + intros y Hy By. apply in_snoc in Hy. destruct Hy as [Hy| ->]; [apply (Lp y Hy By)|].
+      destruct By as [_ T]. destruct Bc as [_ T']. clash.
+    + intros y Hy By. apply in_snoc in Hy. destruct Hy as [Hy| ->]; [apply (Lr y Hy By)|].
+      destruct By as [_ T]. destruct Bc as [_ T']. clash.
+    + intros y Hy By. apply in_snoc in Hy. destruct Hy as [Hy| ->].
+      * destruct (Lc y Hy By) as (A & B & C & D & E). split; [exact A|]. split; [exact B|]. split; [exact C|].
+        split; [|congruence].
+        destruct (N.eq_dec (c_round (co y)) (s_round s)) as [Eq|Ne]; [|left; lia].
+        right. split; [symmetry; exact Eq|]. destruct (C Eq) as (p' & Ep' & Rp'). rewrite Hp in Ep'. injection Ep' as <-.
+        congruence.
+      * rewrite Rc, Roc. split; [exact L1|]. split; [lia|]. split; [intros _; exists p; auto|].
+        split; [right; auto|congruence].
+    + intros p0 E m0 Hm0. eapply genuine_mono; [apply incl_app_l|]. apply (Mpc p0 E m0 Hm0).
+    + exact Mpf.
+    + exact Mpn.
+    + exact La.
+    + intros Hd p0 E m0 Hm0. eapply genuine_mono; [apply incl_app_l|]. apply (Lcc Hd p0 E m0 Hm0).
+    + exact Lcf.
+    + exact Lcn.
+  - constructor; cbn; try lia.
+    + intros y j ty [<-|[]] [B _]. destruct Bc as [B' _]. rewrite B' in B. injection B as <-. reflexivity.
+    + intros y [<-|[]] [_ T]. destruct Bc as [_ T']. clash.
+    + intros y [<-|[]] _. rewrite Rc, Roc. split.
+      * eapply genuine_quorum; [rewrite <- (has_quorum_cfg i); exact Hq2|].
+        intros m0 Hm0. rewrite Hentry in Hm0. apply in_snoc in Hm0. destruct Hm0 as [Hm0| ->]; [eauto|exact Hgen].
+      * intros z Hz Bz. apply (Lr z Hz Bz).
+    + intros y [<-|[]] [_ T]. destruct Bc as [_ T']. clash.
+Qed.
+
+
+(* ---- rule: a commit is counted ---------------------------------------------------------------------------------- *)
+
+Lemma quorum_ge_3 : 3 <= quorum c0.
+Proof. rewrite Hq. lia. Qed.
+
+Lemma upon_commit_linv i snt s m s' cr p :
+  linv snt i s -> admissible c0 byz snt m -> s_acc s = Some p ->
+  validate_commit (cfg_of i) m (s_height s) (s_round s) p = true ->
+  upon_commit (cfg_of i) s m = (s', cr) ->
+  linv snt i s' /\
+  (s_decided s = false -> forall v agg, cr = CDecide v agg ->
+     CQ snt (s_round s) (c_root (co p)) /\ v = c_full (co p) /\ c_root (co agg) = c_root (co p) /\
+     c_full (co agg) = c_full (co p) /\ (2 <= length (c_signers (co agg)))%nat).
+Proof.
+  intros L Hadm Hp Hv. unfold upon_commit.
+  destruct (cadd_first (s_commit s) m) as [ct added] eqn:Ea. destruct added; cbn [negb].
+  2:{ intros E; injection E as <- <-. split; [exact L|]. intros _ v agg E. discriminate. }
+  apply cadd_first_added in Ea.
+  pose proof (validate_commit_ok _ _ _ _ _ Hv) as (Tm & Hm & Rm & Rom & Lm & Sm & Vm).
+  rewrite Rm in Ea.
+  assert (Hgen : genuine snt T_COMMIT (s_round s) (c_root (co p)) m).
+  { eapply genuine_of_sig; eauto. apply Hadm; [left; reflexivity|eapply sig_check_ok; eauto]. }
+  destruct L as [Lh L1 Ll Lp Lr Lc Lpc Lpf Lpn La Lcc Lcf Lcn].
+  set (s1 := set_commit s ct).
+  assert (Hentry : cget ct (s_round s) = cget (s_commit s) (s_round s) ++ [m]) by (rewrite Ea; apply cget_cput_same).
+  assert (Hother : forall r, r <> s_round s -> cget ct r = cget (s_commit s) r).
+  { intros r Hr. rewrite Ea. apply cget_cput_other. congruence. }
+  assert (L1' : linv snt i s1).
+  { constructor; cbn; auto.
+    - intros Hd p0 E m0 Hm0. rewrite Hentry in Hm0. apply in_snoc in Hm0. rewrite Hp in E. injection E as <-.
+      destruct Hm0 as [Hm0| ->]; [eauto|exact Hgen].
+    - intros Hd r Hlt. rewrite Hother by lia. auto.
+    - intros Hd E. congruence. }
+  rewrite Rm, Rom.
+  pose proof (longest_unique_spec ct (s_round s) (c_root (co p))
+                (genuine snt T_COMMIT (s_round s) (c_root (co p)))) as Hsel.
+  destruct (longest_unique ct (s_round s) (c_root (co p))) as [sg ms].
+  destruct (N.leb_spec (quorum c0) (N.of_nat (length sg))) as [Hle|Hgt].
+  2:{ cbn. destruct (N.leb_spec (quorum c0) (N.of_nat (length sg))); [lia|].
+      intros E; injection E as <- <-. split; [exact L1'|]. intros _ v agg E. discriminate. }
+  cbn [quorum cfg_of System.cfg_of]. destruct (N.leb_spec (quorum c0) (N.of_nat (length sg))); [|lia].
+  rewrite Hp.
+  destruct (aggregate_commits (cfg_of i) ms (c_full (co p))) as [agg|] eqn:Eagg.
+  2:{ intros E; injection E as <- <-. split; [exact L1'|]. intros _ v a E. discriminate. }
+  intros E; injection E as <- <-. split; [exact L1'|].
+  intros Hd v a E. injection E as <- <-.
+  assert (Hall : forall x, In x (cget ct (s_round s)) -> genuine snt T_COMMIT (s_round s) (c_root (co p)) x).
+  { intros x Hx. rewrite Hentry in Hx. apply in_snoc in Hx. destruct Hx as [Hx| ->]; [eauto|exact Hgen]. }
+  destruct Hsel as (S1 & S2 & S3).
+  { intros x Hx. destruct (Hall x Hx) as (k & Ek & _). rewrite Ek. constructor; [intros []|constructor]. }
+  { exact Hall. }
+  cbn [fst snd] in *.
+  assert (Hagg : c_root (co agg) = c_root (co p) /\ c_full (co agg) = c_full (co p) /\
+                 length (c_signers (co agg)) = length sg).
+  { revert Eagg. unfold aggregate_commits. destruct ms as [|m0 tl]; [discriminate|].
+    destruct (forallb (same_signing_root m0) tl); cbn [negb]; [|discriminate].
+    intros E; injection E as <-. cbn [co c_root c_full c_signers].
+    destruct (S3 m0 (or_introl eq_refl)) as [R0 _]. split; [exact R0|]. split; [reflexivity|].
+    rewrite S1. cbn. destruct (v_sort_agg (var c0)); [apply sort_n_length|reflexivity]. }
+  destruct Hagg as (A1 & A2 & A3).
+  split.
+  - exists sg. split; [exact S2|]. split.
+    + intros x Hx. rewrite S1 in Hx. apply all_signers_In in Hx. destruct Hx as (m0 & Hm0 & Hx).
+      destruct (S3 m0 Hm0) as [_ (k & Ek & Hk & _)]. rewrite Ek in Hx. destruct Hx as [<-|[]]. exact Hk.
+    + split; [exact Hle|]. intros x Hx Hb. rewrite S1 in Hx. apply all_signers_In in Hx.
+      destruct Hx as (m0 & Hm0 & Hx). destruct (S3 m0 Hm0) as [_ (k & Ek & _ & Hs)].
+      rewrite Ek in Hx. destruct Hx as [<-|[]]. auto.
+  - split; [reflexivity|]. split; [exact A1|]. split; [exact A2|]. rewrite A3.
+    pose proof quorum_ge_3. lia.
+Qed.
+
+Lemma set_decided_linv snt i s v : linv snt i s -> linv snt i (set_decided s v).
+Proof.
+  intros [Lh L1 Ll Lp Lr Lc Lpc Lpf Lpn La Lcc Lcf Lcn].
+  constructor; cbn; auto; intros Hd; discriminate.
+Qed.
+
+(* ---- rule: the round is bumped and a round change announced (timeout, partial quorum) --------------------- *)
+
+Lemma rc_facts i sx nr :
+  let rc := create_round_change (cfg_of i) sx nr in
+  by_ i T_ROUNDCHANGE rc /\ c_round (co rc) = nr /\
+  (s_lpr sx <> NO_ROUND -> s_lpv sx <> None ->
+     c_data_round (co rc) = s_lpr sx /\ c_root (co rc) = hash (s_lpv sx)).
+Proof.
+  unfold create_round_change.
+  destruct (N.eqb_spec (s_lpr sx) NO_ROUND) as [E|E]; cbn [negb andb].
+  - unfold by_; cbn. split; [auto|]. split; [reflexivity|]. intros H. contradiction.
+  - destruct (s_lpv sx) eqn:Ev; unfold by_; cbn.
+    + split; [auto|]. split; [reflexivity|]. intros _ _. auto.
+    + split; [auto|]. split; [reflexivity|]. intros _ H. contradiction.
+Qed.
+
+Lemma bump_linv i snt s s2 nr rc :
+  linv snt i s -> s_round s < nr ->
+  s_height s2 = s_height s -> s_round s2 = nr -> s_lpr s2 = s_lpr s -> s_lpv s2 = s_lpv s ->
+  s_acc s2 = None -> s_decided s2 = s_decided s ->
+  (forall r, s_round s <= r -> cget (s_prep s2) r = cget (s_prep s) r) ->
+  (forall r, s_round s <= r -> cget (s_commit s2) r = cget (s_commit s) r) ->
+  by_ i T_ROUNDCHANGE rc -> c_round (co rc) = nr ->
+  (s_lpr s <> NO_ROUND -> s_lpv s <> None -> c_data_round (co rc) = s_lpr s /\ c_root (co rc) = hash (s_lpv s)) ->
+  linv snt i s2 /\ linv (snt ++ [rc]) i s2 /\ new_ok snt i [rc].
+Proof.
+  intros L Hlt Hh Hr Hl Hv Ha Hd Hp Hc Brc Rrc Drc.
+  destruct L as [Lh L1 Ll Lp Lr Lc Lpc Lpf Lpn La Lcc Lcf Lcn].
+  assert (L2 : linv snt i s2).
+  { constructor; rewrite ?Hh, ?Hr, ?Hl, ?Hv, ?Ha, ?Hd.
+    - exact Lh.
+    - lia.
+    - lia.
+    - intros y Hy By. destruct (Lp y Hy By) as (A & B & C). split; [exact A|]. split; [lia|]. intros E. lia.
+    - intros y Hy By. specialize (Lr y Hy By). lia.
+    - intros y Hy By. destruct (Lc y Hy By) as (A & B & C & D & E). split; [exact A|]. split; [lia|].
+      split; [intros E'; lia|]. split; [exact D|exact E].
+    - intros p E. discriminate.
+    - intros r Hr'. rewrite Hp by lia. apply Lpf. lia.
+    - intros _. rewrite Hp by lia. apply Lpf. lia.
+    - intros p E. discriminate.
+    - intros _ p E. discriminate.
+    - intros Hd' r Hr'. rewrite Hc by lia. apply Lcf; [exact Hd'|lia].
+    - intros Hd' _. rewrite Hc by lia. apply Lcf; [exact Hd'|lia]. }
+  split; [exact L2|]. split.
+  - destruct L2 as [Mh M1 Ml Mp Mr Mc Mpc Mpf Mpn Ma Mcc Mcf Mcn].
+    constructor; auto.
+    + intros y Hy By. apply in_snoc in Hy. destruct Hy as [Hy| ->]; [auto|].
+      destruct By as [_ T]. destruct Brc as [_ T']. clash.
+    + intros y Hy By. apply in_snoc in Hy. destruct Hy as [Hy| ->]; [auto|]. rewrite Rrc, Hr. lia.
+    + intros y Hy By. apply in_snoc in Hy. destruct Hy as [Hy| ->]; [auto|].
+      destruct By as [_ T]. destruct Brc as [_ T']. clash.
+    + intros p E. rewrite Ha in E. discriminate.
+    + intros Hd' p E. rewrite Ha in E. discriminate.
+  - constructor; cbn; try lia.
+    + intros y j ty [<-|[]] [B _]. destruct Brc as [B' _]. rewrite B' in B. injection B as <-. reflexivity.
+    + intros y [<-|[]] [_ T]. destruct Brc as [_ T']. clash.
+    + intros y [<-|[]] [_ T]. destruct Brc as [_ T']. clash.
+    + intros z [<-|[]] _ y0 Hy0 By0 Hlt0. destruct (Lc y0 Hy0 By0) as (A & B & C & D & E).
+      destruct Drc as [Dd Dr]; [destruct D as [D|[D _]]; unfold NO_ROUND; lia|exact E|].
+      rewrite Dd, Dr. destruct D as [D|[D1 D2]]; [left; exact D|right; auto].
+Qed.
+
+
+(* a new message of the operator that is not a prepare, commit or round change *)
+Lemma linv_other snt i s y : linv snt i s -> ~ pcr i y -> linv (snt ++ [y]) i s.
+Proof.
+  intros L Hn. eapply linv_mono; [apply incl_app_l| |exact L].
+  intros y0 Hy0 P. apply in_snoc in Hy0. destruct Hy0 as [H| ->]; [exact H|contradiction].
+Qed.
+
+Lemma view_linv snt i s s' :
+  s_height s' = s_height s -> s_round s' = s_round s -> s_lpr s' = s_lpr s -> s_lpv s' = s_lpv s ->
+  s_acc s' = s_acc s -> s_decided s' = s_decided s -> s_prep s' = s_prep s -> s_commit s' = s_commit s ->
+  linv snt i s -> linv snt i s'.
+Proof.
+  intros A B C D E F G H L. eapply linv_view; [|exact L]. unfold same_view. rewrite A, B, C, D, E, F, G, H. auto 10.
+Qed.
+
+(* ---- rule: a round change is processed ----------------------------------------------------------------------- *)
+
+Lemma upon_round_change_linv i snt s m s' o ok :
+  linv snt i s -> upon_round_change (cfg_of i) s m = Some (s', o, ok) ->
+  linv (snt ++ bcast_of o) i s' /\ new_ok snt i (bcast_of o).
+Proof.
+  intros L. unfold upon_round_change.
+  destruct (cadd_first (s_rc s) m) as [ct added]. destruct added; cbn [negb].
+  2:{ intros E; injection E as <- <- _. cbn. rewrite app_nil_r. split; [exact L|apply new_ok_nil]. }
+  set (s1 := set_rc s ct).
+  assert (L1 : linv snt i s1) by (eapply view_linv; [..|exact L]; reflexivity).
+  destruct (has_quorum (cfg_of i) (cget (s_rc s) (c_round (co m)))).
+  { intros E; injection E as <- <- _. cbn. rewrite app_nil_r. split; [exact L1|apply new_ok_nil]. }
+  destruct (if has_quorum (cfg_of i) (cget ct (c_round (co m)))
+            then find_justified (cfg_of i) s1 m (cget ct (c_round (co m))) (cget ct (c_round (co m)))
+            else Some None) as [[[jm v]|]|]; [| |discriminate].
+  - (* the leader proposes *)
+    intros E; injection E as <- <- _.
+    set (pr := create_proposal (cfg_of i) s1 v (cget ct (s_round s1)) (rcj jm)).
+    change (bcast_of [OBcast pr]) with [pr].
+    assert (Hpr : forall j ty, by_ j ty pr -> j = i /\ ty = T_PROPOSAL).
+    { intros j ty [B T]. unfold pr in B, T; cbn in B, T. injection B as <-. auto. }
+    split.
+    + apply linv_other; [exact L1|]. intros [B|[B|B]]; destruct (Hpr _ _ B) as [_ T]; clash.
+    + apply new_ok_other. intros j ty B. destruct (Hpr _ _ B) as [-> ->]. split; [reflexivity|].
+      repeat split; intros X; clash.
+  - change (s_round s1) with (s_round s).
+    destruct (has_partial_quorum (cfg_of i) _).
+    2:{ intros E; injection E as <- <- _. cbn. rewrite app_nil_r. split; [exact L1|apply new_ok_nil]. }
+    set (nr := min_round (filter (fun x => s_round s <? c_round (co x)) (call ct)) NO_ROUND).
+    destruct (N.leb_spec nr (s_round s)) as [Hle|Hgt].
+    { intros E; injection E as <- <- _. cbn. rewrite app_nil_r. split; [exact L1|apply new_ok_nil]. }
+    set (s2 := set_acc (set_round s1 nr) None).
+    set (rc := create_round_change (cfg_of i) s2 nr).
+    destruct (rc_facts i s2 nr) as (Brc & Rrc & Drc). fold rc in Brc, Rrc, Drc.
+    destruct (bump_linv i snt s s2 nr rc L Hgt) as (La & Lb & Lc); try reflexivity; auto.
+    destruct (can_process s2); intros E; injection E as <- <- _.
+    + change (bcast_of [OTimer (s_height s2) nr; OBcast rc]) with [rc]. auto.
+    + cbn. rewrite app_nil_r. split; [exact La|apply new_ok_nil].
+Qed.
+
+(* ---- rule: timeout ---------------------------------------------------------------------------------------------- *)
+
+Lemma upon_timeout_linv i snt s s' o ok :
+  linv snt i s -> upon_timeout (cfg_of i) s = (s', o, ok) ->
+  linv (snt ++ bcast_of o) i s' /\ new_ok snt i (bcast_of o).
+Proof.
+  intros L. unfold upon_timeout. destruct (can_process s); cbn [negb].
+  2:{ intros E; injection E as <- <- _. cbn. rewrite app_nil_r. split; [exact L|apply new_ok_nil]. }
+  intros E; injection E as <- <- _.
+  set (nr := s_round s + 1). set (rc := create_round_change (cfg_of i) s nr).
+  set (s2 := set_acc (set_round s nr) None).
+  destruct (rc_facts i s nr) as (Brc & Rrc & Drc). fold rc in Brc, Rrc, Drc.
+  assert (Hlt : s_round s < nr) by (unfold nr; lia).
+  change (bcast_of [OBcast rc; OTimer (s_height s) nr]) with [rc].
+  destruct (bump_linv i snt s s2 nr rc L Hlt) as (La & Lb & Lc); try reflexivity; auto.
+Qed.
+
+(* ---- Instance.ProcessMsg ------------------------------------------------------------------------------------------ *)
+
+Lemma bmv_prepare c s m : base_msg_validation c s m = Some true -> c_type (co m) = T_PREPARE ->
+  exists p, s_acc s = Some p /\ valid_prepare c m (s_height s) (s_round s) (c_root (co p)) = true.
+Proof.
+  unfold base_msg_validation. intros H Ht. rewrite Ht in H. cbn in H.
+  destruct (negb (signed_validate (co m))); [discriminate|].
+  destruct (c_round (co m) <? s_round s); [discriminate|].
+  destruct (s_acc s) as [p|]; [|discriminate]. injection H as H. eauto.
+Qed.
+
+Lemma process_msg_linv i snt s m s' o r :
+  linv snt i s -> admissible c0 byz snt m -> process_msg (cfg_of i) s m = (s', o, r) ->
+  linv (snt ++ bcast_of o) i s' /\ new_ok snt i (bcast_of o) /\
+  (forall v agg, r = POk true v (Some agg) ->
+     o = [] /\ (s_decided s = false ->
+       exists rr rho, CQ snt rr rho /\ c_root (co agg) = rho /\ c_full (co agg) = v /\ hash v = rho /\
+                      (2 <= length (c_signers (co agg)))%nat)).
+Proof.
+  intros L Hadm. unfold process_msg.
+  assert (Hsame : linv (snt ++ bcast_of []) i s /\ new_ok snt i (bcast_of [])).
+  { cbn. rewrite app_nil_r. split; [exact L|apply new_ok_nil]. }
+  destruct (can_process s); cbn [negb].
+  2:{ intros E; injection E as <- <- <-. destruct Hsame. split; [assumption|]. split; [assumption|]. intros ? ? E; discriminate. }
+  destruct (base_msg_validation (cfg_of i) s m) as [[|]|] eqn:Hv;
+    try (intros E; injection E as <- <- <-; destruct Hsame; split; [assumption|]; split; [assumption|]; intros ? ? E; discriminate).
+  destruct (N.eqb_spec (c_type (co m)) T_PROPOSAL) as [Ht|Ht].
+  - destruct (upon_proposal (cfg_of i) s m) as [[s1 o1] ok] eqn:E1. intros E; injection E as <- <- <-.
+    destruct (upon_proposal_linv i snt s m s1 o1 ok L Hadm (bmv_proposal _ _ _ Hv Ht) E1) as [A B].
+    split; [assumption|]. split; [assumption|]. intros v agg E. destruct ok; discriminate.
+  - destruct (N.eqb_spec (c_type (co m)) T_PREPARE) as [Ht1|Ht1].
+    + destruct (upon_prepare (cfg_of i) s m) as [s1 o1] eqn:E1. intros E; injection E as <- <- <-.
+      destruct (bmv_prepare _ _ _ Hv Ht1) as (p & Hp & Hvp).
+      destruct (upon_prepare_linv i snt s m s1 o1 p L Hadm Hp Hvp E1) as [A B].
+      split; [assumption|]. split; [assumption|]. intros v agg E. discriminate.
+    + destruct (N.eqb_spec (c_type (co m)) T_COMMIT) as [Ht2|Ht2].
+      * destruct (bmv_commit _ _ _ Hv Ht2) as (p & Hp & Hvc).
+        destruct (upon_commit (cfg_of i) s m) as [s1 cr] eqn:E1.
+        destruct (upon_commit_linv i snt s m s1 cr p L Hadm Hp Hvc E1) as [A B].
+        destruct cr as [| |v agg]; intros E; injection E as <- <- <-; cbn; rewrite app_nil_r.
+        -- split; [assumption|]. split; [apply new_ok_nil|]. intros ? ? E; discriminate.
+        -- split; [assumption|]. split; [apply new_ok_nil|]. intros ? ? E; discriminate.
+        -- split; [apply set_decided_linv; exact A|]. split; [apply new_ok_nil|].
+           intros v0 agg0 E. injection E as <- <-. split; [reflexivity|]. intros Hd.
+           destruct (B Hd v agg eq_refl) as (C1 & C2 & C3 & C4 & C5).
+           exists (s_round s), (c_root (co p)).
+           split; [exact C1|]. split; [exact C3|]. split; [congruence|]. split; [|exact C5].
+           subst v. destruct L. apply (l_acc0 p Hp).
+      * destruct (upon_round_change (cfg_of i) s m) as [[[s1 o1] ok]|] eqn:E1.
+        -- intros E; injection E as <- <- <-.
+           destruct (upon_round_change_linv i snt s m s1 o1 ok L E1) as [A B].
+           split; [assumption|]. split; [assumption|]. intros v agg E. destruct ok; discriminate.
+        -- intros E; injection E as <- <- <-. destruct Hsame. split; [assumption|]. split; [assumption|]. intros ? ? E; discriminate.
 Qed.
 
 End Inv.
